@@ -389,6 +389,33 @@ func c09Specs(tier string) []c09Spec {
 			return If(Var("b0", TBool), sumTreeNode(n-3, vone), Lit(int64(0)))
 		})
 	}
+	// operand-stack depth far beyond the node-per-level shapes: wide operators nested in last position keep all their
+	// other operands pending (depth = levels * (width-1) + 1), still within 127 operands and 32767 nodes
+	type wd struct{ levels, width int }
+	wds := []wd{{65, 127}, {129, 127}, {130, 127}, {131, 127}, {140, 127}, {257, 127}, {300, 100}}
+	if tier == "thorough" {
+		wds = append(wds, wd{64, 127}, wd{128, 127}, wd{132, 127}, wd{200, 127}, wd{256, 127}, wd{258, 127}, wd{1000, 30}, wd{16000, 2}, wd{330, 100})
+	}
+	for _, x := range wds {
+		x := x
+		nodes := x.levels*x.width + 1
+		ex := 0
+		if nodes > 32767 {
+			ex = 1
+		}
+		heavy(fmt.Sprintf("stack-depth/%dx%d", x.levels, x.width), ex, []int{0}, func() *Node {
+			t := Var("i0", TInt)
+			for l := 0; l < x.levels; l++ {
+				ch := make([]*Node, x.width)
+				for i := range ch {
+					ch[i] = Var("i0", TInt)
+				}
+				ch[x.width-1] = t
+				t = Op("+", TInt, ch...)
+			}
+			return t
+		})
+	}
 	// list literals are one node however long they are: far more tokens than nodes, all within the limits
 	listSizes := []int{32767, 32768, 70000, 98303, 98304, 150000}
 	if tier == "thorough" {
